@@ -211,15 +211,18 @@ def run_property(prop, tier, seed, only_units=None):
     for u in undecided:
         print(f'UNDECIDED property={prop} reason={u}')
 
-    if obligations == 0 and not undecided and not violations:
+    bounded_checks = sum(b['checks'] for b in bounded_units)
+    if obligations == 0 and bounded_checks == 0 and not undecided and not violations:
         undecided.append('vacuity guard: zero obligations')
         print(f'UNDECIDED property={prop} reason=zero obligations generated')
 
     wall = time.time() - t0
     ev = {
-        'property_id': prop, 'tier': tier, 'seed': seed, 'level': 'proof',
+        'property_id': prop, 'tier': tier, 'seed': seed, 'level': 'proof' if obligations > 0 else 'model_checking',
         'coverage': {
-            'obligations': obligations, 'discharged': discharged,
+            **({'obligations': obligations, 'discharged': discharged} if obligations > 0 else
+               {'evaluations': bounded_checks, 'distinct_nontrivial': len([b for b in bounded_units if b['status'] == 'ok']),
+                'rule': 'only bounded Kani harnesses decide this property in this run: evaluations = CBMC checks of those harnesses, distinct_nontrivial = harnesses that passed with every reachability cover satisfied'}),
             'checker_cmd': f'python3 tools/check.py {prop} --tier {tier}  (verus <gen>/<unit>.rs --output-json --time --multiple-errors 8 ; cargo kani -Z function-contracts -Z stubbing --output-format=terse -j N --harness ...)',
             'trusted_base': sorted(set(trusted)),
             'explanation': 'obligations = Verus verification units (one per function/lemma/loop bundle, as counted by verus) of every unit serving this property + CBMC checks of Kani complete/contract harnesses; bounded harnesses are listed separately under bounded_units and are NOT counted.',
